@@ -107,10 +107,12 @@ Theorem dagger_eval_is_conj_transpose : forall (SR : StarRing) (c : circuit SR),
 Proof. exact cdagger_eval. Qed.
 Print Assumptions dagger_eval_is_conj_transpose.
 
-(* 6. rewire.  Full statement: [rewire_acts_on_a_b_stmt] (a Definition, not
-      asserted).  Proved: the refusals, the shape of the contiguous case, and
-      the full semantic statement for every placement on at most 4 wires by
-      exhaustive computation in Cyc32, for CX, Controlled(Rx(5/16)), CRz(5/16). *)
+(* 6. rewire.  Full statement: [rewire_acts_on_a_b_stmt] (a Definition in
+      GatesWitness.v), PROVED IN FULL in section 8 below (every width, every
+      placement, every two-qubit circuit).  This section keeps the earlier
+      results: the refusals, the contiguous cases, and the bounded exhaustive
+      computation in Cyc32 (every placement on at most 4 wires for CX,
+      Controlled(Rx(5/16)), CRz(5/16)) as an independent computed cross-check. *)
 Theorem rewire_refuses : forall (SR : StarRing) (op : circuit SR) a b n,
   rewire op a a (Some n) = Err ValueError /\
   (a <> b -> n < 2 -> rewire op a b (Some n) = Err ValueError) /\
@@ -177,3 +179,42 @@ Proof.
   - apply (gate2_matches_std SR (G2Ctrl (G1Named NS true))).
 Qed.
 Print Assumptions controlled_dagger_is_conj_transpose.
+
+(* 8. rewire, EVERY placement (proofs in Quantum/RewireGeneral.v).  This closes the
+      statement that section 6 proved only for n <= 4 on three gates. *)
+From Coq Require Import ZArith.
+Require Import DV.Core.Perm DV.Quantum.RewireGeneral.
+Local Open Scope nat_scope.
+
+(* Box.permutation(l, qubit ** n), the network of adjacent swaps of
+   monoidal.Diagram.permutation, for EVERY list l that Diagram.permutation accepts
+   (is_perm is the model of its own check): it is built, well-typed, n -> n, and
+   evaluates to the index permutation matrix "input wire j leaves at output
+   position l[j]", i.e. entry [i, o] is 1 when i_j = o_(l[j]) for every j, else 0 *)
+Theorem permutation_network_is_index_permutation : forall (SR : StarRing) (l : list nat),
+  is_perm (map Z.of_nat l) = true ->
+  exists offs, @perm_offsets l (length l) = Ok offs
+    /\ wf_circuit (Circ (length l) (@swaps_at SR offs)) = true
+    /\ cod_or0 (Circ (length l) (@swaps_at SR offs)) = length l
+    /\ meq (length l) (length l) (eval (Circ (length l) (@swaps_at SR offs)))
+           (fun i o => delta i (map (fun k => nth k o false) l)).
+Proof. exact permutation_network_eval. Qed.
+Print Assumptions permutation_network_is_index_permutation.
+
+(* every width n, every a <> b < n (adjacent or not, in either order), every
+   well-typed two-qubit circuit op : 2 -> 2 (any boxes): rewire(op, a, b, dom=qubit ** n)
+   succeeds, is well-typed n -> n and evaluates to op acting on the wires a and b,
+   every other wire untouched *)
+Theorem rewire_acts_on_a_b : forall (SR : StarRing) (op : circuit SR) (n a b : nat),
+  wf_circuit op = true -> c_dom op = 2 -> cod_or0 op = 2 ->
+  a < n -> b < n -> a <> b ->
+  exists c, rewire op a b (Some n) = Ok c /\ wf_circuit c = true /\
+            c_dom c = n /\ cod_or0 c = n /\
+            meq n n (eval c) (on_wires a b (eval op)).
+Proof. exact rewire_acts_on_a_b_general. Qed.
+Print Assumptions rewire_acts_on_a_b.
+
+(* the statement of GatesWitness.v (single gates), word for word *)
+Theorem rewire_acts_on_a_b_every_gate : rewire_acts_on_a_b_stmt.
+Proof. exact rewire_acts_on_a_b_holds. Qed.
+Print Assumptions rewire_acts_on_a_b_every_gate.
